@@ -31,14 +31,15 @@ CHECKS = {
         "level_note": "One listed finding (no processing-time observation for values emitted off the item path). In/lag/per-operator equalities are asserted for chains without early-terminating or re-subscribing stages (a synchronous source keeps emitting into a closed chain there).",
     },
     "C18": {
-        "run": "^TestC18_",
+        "run": "^(TestC18_|FuzzC18_)",
         "rule": ("cases = (plugin operator, parameters, input items) drawn by rapid from domain-specific generators with boundary pools (empty, multi-byte and invalid UTF-8, NUL, number-like "
                  "strings, bases and bit sizes in and out of range, regexps from a pool, layouts and zones, templates over a generated struct, base64 encodings, JSON/gob values incl. NaN, CSV "
                  "rows with quotes and newlines, byte slices with spare capacity, sort inputs of sizes crossing 12 with few distinct keys, readers with 1-byte / exact-buffer reads, data "
                  "returned together with EOF, faults after j bytes, sizes around 1024 and 4096, lines up to 70000 bytes). Non-trivial = malformed / non-ASCII / threshold-crossing / "
                  "equal-but-distinguishable input as stated per sub-check; distinct by descriptor hash."),
         "quick": {"rapid": 200, "timeout": 300, "shards": 4},
-        "thorough": {"rapid": 4000, "timeout": 3000, "shards": 16, "fuzz": True},
+        "thorough": {"rapid": 4000, "timeout": 3000, "shards": 16,
+                     "fuzz": {"seconds": 45, "targets": ["FuzzC18_Strconv", "FuzzC18_Regexp", "FuzzC18_TextHelpers", "FuzzC18_TimeTemplateEncodings", "FuzzC18_Sort", "FuzzC18_Stdio"]}},
         "assumptions": COMMON_ASSUMPTIONS + ["the standard-library functions the plugins wrap (strconv, regexp, time, text/html template, encoding/*, sort) are the oracles"],
         "technique": "differential property-based testing against the wrapped standard-library function, flavour agreement, round trips, permutation/stability and concatenation predicates; native Go fuzz targets in the thorough tier",
         "level_text": ("Exploration. Item by item, every plugin operator is compared with the library function it wraps applied directly (same value, or an Error notification carrying "
